@@ -436,7 +436,11 @@ def string_escape(ctx):
         reports.error,
         "invalid-escape",
         (ctx_start, ctx, "A letter is expected after a backslash '\\' in a string")
-    )).lower()
+    ))
+    if char is None:
+        # End of file right after the backslash; the error has been reported
+        return ""
+    char = char.lower()
 
     if char == "n":
         return "\n"
@@ -454,6 +458,8 @@ def string_escape(ctx):
             "invalid-escape",
             (ctx_start, ctx, "Two hexadecimal digits are expected after '\\x' in a string")
         ))
+        if num is None:
+            return ""
         return chr(int(num, 16))
     else:
         reports.error(
